@@ -79,6 +79,22 @@ fn hull_queries<const D: usize>(s: &Snap<D>) -> Vec<[f64; D]> {
             out.push(p);
         }
     }
+    // points in the supporting hyperplane of a boundary facet but outside the facet (strictly outside the hull, exactly
+    // coplanar with that facet): facet centroid + 2 and + 8 times (facet vertex - facet centroid)
+    let fm = refval::facet_map(s);
+    for (f, inc) in fm.iter() {
+        if inc.len() != 1 {
+            continue;
+        }
+        let idx: Vec<usize> = f.iter().map(|k| s.vidx[k]).collect();
+        let m = idx.len() as f64;
+        let fc: [f64; D] = std::array::from_fn(|i| idx.iter().map(|&k| s.verts[k].c[i]).sum::<f64>() / m);
+        for &k in &idx {
+            for t in [2.0, 8.0] {
+                out.push(std::array::from_fn(|i| fc[i] + t * (s.verts[k].c[i] - fc[i])));
+            }
+        }
+    }
     out
 }
 
